@@ -736,9 +736,12 @@ func (b *teletextPageBuffer) parsePacket28And29(i []byte, packetNumber, designat
 		return
 	}
 
-	// Triplet 1
-	// TODO triplet1 should be the results of hamming 24/18 decoding
-	triplet1 := uint32(i[2])<<16 | uint32(i[1])<<8 | uint32(i[0])
+	// Triplet 1 is protected by Hamming 24/18. Like every byte of the PES payload its three bytes carry the first
+	// transmitted bit in the most significant position
+	triplet1, ok := teletextHamming2418Decode(bits.Reverse8(i[0]), bits.Reverse8(i[1]), bits.Reverse8(i[2]))
+	if !ok {
+		return
+	}
 
 	// We only process x/28 format 1
 	if packetNumber == 28 && triplet1&0xf > 0 {
@@ -751,6 +754,42 @@ func (b *teletextPageBuffer) parsePacket28And29(i []byte, packetNumber, designat
 	} else {
 		b.cd.setTripletM29(triplet1)
 	}
+}
+
+// teletextHamming2418Decode decodes a triplet protected by Hamming 24/18 (ETS 300 706, 8.3): b0 carries the bits
+// 1 to 8 (bit 1 first transmitted, least significant), b1 the bits 9 to 16, b2 the bits 17 to 24. The parity bits sit at
+// the positions 1, 2, 4, 8 and 16, the overall parity bit at position 24, every parity is odd. A single bit error is
+// corrected, a double bit error is reported. It returns the 18 data bits
+func teletextHamming2418Decode(b0, b1, b2 uint8) (o uint32, ok bool) {
+	a := uint32(b0) | uint32(b1)<<8 | uint32(b2)<<16
+
+	// The position of a single error is the exclusive or of the positions (1 to 23) of the bits set, complemented
+	// since the parities are odd
+	var position, parity uint32
+	for p := uint32(1); p <= 24; p++ {
+		if a>>(p-1)&0x1 > 0 {
+			if p < 24 {
+				position ^= p
+			}
+			parity ^= 0x1
+		}
+	}
+	position ^= 0x1f
+
+	// Overall parity is right: either there's no error or there are two
+	if parity == 1 {
+		if position != 0 {
+			return
+		}
+	} else if position > 23 {
+		// A single error can't be there
+		return
+	} else if position > 0 {
+		a ^= 1 << (position - 1)
+	}
+	ok = true
+	o = a>>2&0x1 | a>>4&0x7<<1 | a>>8&0x7f<<4 | a>>16&0x7f<<11
+	return
 }
 
 // TODO Add tests
